@@ -2,4 +2,4 @@ package c01
 
 import "verifharness/suites/mbx"
 
-func init() { mbx.Register() }
+func init() { mbx.Register(); mbx.RegisterFacts(); mbx.RegisterDispatch() }
